@@ -43,7 +43,11 @@ theorem runMv_append (s : St) (a b : List Mv) : runMv s (a ++ b) = runMv (runMv 
   | cons m ms ih => exact ih (stepMv s m)
 
 /-- The start state: nothing queued, nobody polling, no wakers yet. -/
-def init (mode : Mode) (sqLen : Nat) : St := { mode, sqLen }
+def initC (mode : Mode) (sqLen cqLen : Nat) : St := { mode, sqLen, cqLen }
+
+/-- The start state with the default completion queue (64 slots here; a10's default is twice the
+submission queue). -/
+def init (mode : Mode) (sqLen : Nat) : St := initC mode sqLen 64
 
 /-! ### Classification of the program counters -/
 
@@ -129,7 +133,7 @@ theorem not_has_of_all {P : WPc → Prop} {l : List WPc} {q : WPc} (hall : ∀ p
 /-- What an unanswered wake call guarantees (the disjunction of DESIGN.md, with the
 sharper class `robust` of wakers). -/
 def Pending (s : St) : Prop :=
-  0 < s.cq ∨ true ∈ s.sq ∨ Has (fun pc => pc.robust = true) s.w ∨
+  0 < s.avail ∨ true ∈ s.sq ∨ Has (fun pc => pc.robust = true) s.w ∨
     (s.word / 2 % 2 = 1 ∧ s.p.preSwap = true) ∨ s.p.noBlock = true
 
 structure Inv (s : St) : Prop where
@@ -143,7 +147,7 @@ structure Inv (s : St) : Prop where
   polling period is sending, or its message / completion is there (the completion
   queue is not emptied while POLLING is set) -/
   aw : s.p.polling = true → s.word = 3 →
-    0 < s.cq ∨ true ∈ s.sq ∨ Has (fun pc => pc.robust = true) s.w
+    0 < s.avail ∨ true ∈ s.sq ∨ Has (fun pc => pc.robust = true) s.w
   /-- the obligation of a wake call that passed its `fetch_or` -/
   ob : s.oblig = true → Pending s
   /-- a `fetch_or` before the swap leaves AWOKEN set until the swap -/
@@ -156,14 +160,114 @@ structure Inv (s : St) : Prop where
     Has (fun pc => ∃ n, pc = .enter true n ∧ true ∉ s.sq.drop n) s.w
   /-- without SQPOLL, a waker that saw `QueueFull` submits a full queue -/
   full : s.mode ≠ .sqpoll → ∀ (j n : Nat), s.w[j]? = some (.enter false n) → s.sqLen ≤ n
+  /-- the completion queue has at least one slot -/
+  clen : 1 ≤ s.cqLen
 
-theorem inv_init (mode : Mode) (sqLen : Nat) (h : 1 ≤ sqLen) : Inv (init mode sqLen) := by
-  refine ⟨h, ?_, ?_, ?_, ?_, ?_, ?_, ?_⟩ <;> simp [init, PPc.polling]
+theorem inv_initC (mode : Mode) (sqLen cqLen : Nat) (h : 1 ≤ sqLen) (hc : 1 ≤ cqLen) :
+    Inv (initC mode sqLen cqLen) := by
+  refine ⟨h, ?_, ?_, ?_, ?_, ?_, ?_, ?_, hc⟩ <;> simp [initC, PPc.polling]
+
+theorem inv_init (mode : Mode) (sqLen : Nat) (h : 1 ≤ sqLen) : Inv (init mode sqLen) :=
+  inv_initC mode sqLen 64 h (by decide)
 
 /-! ### The simple moves -/
 
+/-! #### `post` and `flush` only touch the two completion counters -/
+
+@[simp] theorem St.avail_eq (s : St) : s.avail = s.cq + s.ovf := rfl
+
+theorem post_eq (s : St) (k : Nat) : ∃ c o, post s k = { s with cq := c, ovf := o } ∧
+    c + o = s.avail + k ∧ s.cq ≤ c := by
+  refine ⟨_, _, rfl, ?_, ?_⟩
+  · simp only [St.avail]; split <;> omega
+  · split <;> omega
+
+theorem flush_eq (s : St) : ∃ c o, flush s = { s with cq := c, ovf := o } ∧
+    c + o = s.avail ∧ s.cq ≤ c ∧ (1 ≤ s.cqLen → c = 0 → o = 0) := by
+  refine ⟨_, _, rfl, ?_, ?_, ?_⟩
+  · simp only [St.avail]; omega
+  · omega
+  · omega
+
+@[simp] theorem post_p (s : St) (k : Nat) : (post s k).p = s.p := rfl
+@[simp] theorem post_w (s : St) (k : Nat) : (post s k).w = s.w := rfl
+@[simp] theorem post_word (s : St) (k : Nat) : (post s k).word = s.word := rfl
+@[simp] theorem post_mode (s : St) (k : Nat) : (post s k).mode = s.mode := rfl
+@[simp] theorem post_sqLen (s : St) (k : Nat) : (post s k).sqLen = s.sqLen := rfl
+@[simp] theorem post_cqLen (s : St) (k : Nat) : (post s k).cqLen = s.cqLen := rfl
+@[simp] theorem post_oblig (s : St) (k : Nat) : (post s k).oblig = s.oblig := rfl
+@[simp] theorem post_returns (s : St) (k : Nat) : (post s k).returns = s.returns := rfl
+@[simp] theorem post_sq (s : St) (k : Nat) : (post s k).sq = s.sq := rfl
+@[simp] theorem flush_p (s : St) : (flush s).p = s.p := rfl
+@[simp] theorem flush_w (s : St) : (flush s).w = s.w := rfl
+@[simp] theorem flush_word (s : St) : (flush s).word = s.word := rfl
+@[simp] theorem flush_mode (s : St) : (flush s).mode = s.mode := rfl
+@[simp] theorem flush_sqLen (s : St) : (flush s).sqLen = s.sqLen := rfl
+@[simp] theorem flush_cqLen (s : St) : (flush s).cqLen = s.cqLen := rfl
+@[simp] theorem flush_oblig (s : St) : (flush s).oblig = s.oblig := rfl
+@[simp] theorem flush_returns (s : St) : (flush s).returns = s.returns := rfl
+@[simp] theorem flush_sq (s : St) : (flush s).sq = s.sq := rfl
+
+theorem post_avail (s : St) (k : Nat) : (post s k).avail = s.avail + k := by
+  rcases post_eq s k with ⟨c, o, e, h, _⟩
+  rw [e]; exact h
+
+theorem post_cq_le (s : St) (k : Nat) : s.cq ≤ (post s k).cq := by
+  rcases post_eq s k with ⟨c, o, e, _, h⟩
+  rw [e]; exact h
+
+theorem flush_avail (s : St) : (flush s).avail = s.avail := by
+  rcases flush_eq s with ⟨c, o, e, h, _⟩
+  rw [e]; exact h
+
+theorem flush_cq_le (s : St) : s.cq ≤ (flush s).cq := by
+  rcases flush_eq s with ⟨c, o, e, _, h, _⟩
+  rw [e]; exact h
+
+/-- After a flush an empty queue means that nothing is available at all. -/
+theorem flush_cq_zero {s : St} (hc : 1 ≤ s.cqLen) (h : ¬ (flush s).cq > 0) : (flush s).avail = 0 := by
+  rcases flush_eq s with ⟨c, o, e, _, _, hz⟩
+  rw [e] at h ⊢
+  have : c = 0 := by simpa using h
+  have := hz hc this
+  simp only [St.avail]; omega
+
+theorem flush_cq_pos {s : St} (hc : 1 ≤ s.cqLen) (h : 0 < s.avail) : (flush s).cq > 0 := by
+  by_cases hz : (flush s).cq > 0
+  · exact hz
+  · have := flush_cq_zero hc hz
+    rw [flush_avail] at this
+    omega
+
+/-- The completion counters may change in any way that does not lose a completion. -/
+theorem inv_counters {s : St} (h : Inv s) (c o : Nat) (hle : s.avail ≤ c + o) :
+    Inv { s with cq := c, ovf := o } := by
+  rcases h with ⟨h1, h2, h3, h4, h5, h6, h7, h8, h9⟩
+  refine ⟨h1, h2, h3, ?_, ?_, h6, h7, h8, h9⟩
+  · intro a b
+    rcases h4 a b with d | d | d
+    · left; simp only [St.avail] at *; omega
+    · right; left; exact d
+    · right; right; exact d
+  · intro a
+    rcases h5 a with d | d | d
+    · left; simp only [St.avail] at *; omega
+    · right; left; exact d
+    · right; right; exact d
+
+theorem inv_post {s : St} (h : Inv s) (k : Nat) : Inv (post s k) := by
+  rcases post_eq s k with ⟨c, o, e, hk, _⟩
+  rw [e]; exact inv_counters h c o (by omega)
+
+theorem inv_flush {s : St} (h : Inv s) : Inv (flush s) := by
+  rcases flush_eq s with ⟨c, o, e, hk, _⟩
+  rw [e]; exact inv_counters h c o (by omega)
+
+theorem consume_avail_le (s : St) (n : Nat) : s.avail ≤ (consume s n).avail := by
+  unfold consume; rw [post_avail]; simp only [St.avail]; omega
+
 theorem consume_cq_le (s : St) (n : Nat) : s.cq ≤ (consume s n).cq := by
-  simp only [consume]; omega
+  exact post_cq_le { s with sq := s.sq.drop n } _
 
 theorem consume_sq (s : St) (n : Nat) : (consume s n).sq = s.sq.drop n := rfl
 
@@ -173,14 +277,14 @@ theorem consume_len (s : St) (n : Nat) : (consume s n).sq.length = s.sq.length -
 /-- A queued wake message is either still queued after a `consume`, or its completion
 has been posted. -/
 theorem consume_true {s : St} (n : Nat) (h : true ∈ s.sq) :
-    0 < (consume s n).cq ∨ true ∈ (consume s n).sq := by
+    0 < (consume s n).avail ∨ true ∈ (consume s n).sq := by
   have h' : true ∈ s.sq.take n ++ s.sq.drop n := by rw [List.take_append_drop]; exact h
   rcases List.mem_append.1 h' with a | a
   · left
     have : true ∈ (s.sq.take n).filter id := List.mem_filter.2 ⟨a, rfl⟩
     have := List.length_pos_of_mem this
-    simp only [consume]; omega
-  · right; exact a
+    unfold consume; rw [post_avail]; omega
+  · right; rw [consume_sq]; exact a
 
 theorem not_mem_drop_drop {l : List Bool} {n : Nat} (h : true ∉ l.drop n) (m : Nat) :
     true ∉ (l.drop m).drop n := by
@@ -200,56 +304,61 @@ theorem not_mem_drop_append_false {l : List Bool} {n : Nat} (h : true ∉ l.drop
   · have := List.mem_of_mem_drop a
     simp at this
 
-theorem inv_stepIo {s : St} (h : Inv s) : Inv (stepIo s) := by
-  rcases h with ⟨h1, h2, h3, h4, h5, h6, h7, h8⟩
-  refine ⟨h1, h2, h3, ?_, ?_, h6, h7, h8⟩
-  · intro _ _; left; simp [stepIo]
-  · intro _; left; simp [stepIo]
+theorem inv_stepIo {s : St} (h : Inv s) : Inv (stepIo s) := inv_post h 1
 
 theorem consume_p (s : St) (n : Nat) : (consume s n).p = s.p := rfl
 theorem consume_w (s : St) (n : Nat) : (consume s n).w = s.w := rfl
 theorem consume_word (s : St) (n : Nat) : (consume s n).word = s.word := rfl
 theorem consume_mode (s : St) (n : Nat) : (consume s n).mode = s.mode := rfl
 theorem consume_sqLen (s : St) (n : Nat) : (consume s n).sqLen = s.sqLen := rfl
+theorem consume_cqLen (s : St) (n : Nat) : (consume s n).cqLen = s.cqLen := rfl
 theorem consume_oblig (s : St) (n : Nat) : (consume s n).oblig = s.oblig := rfl
 theorem consume_returns (s : St) (n : Nat) : (consume s n).returns = s.returns := rfl
 
 /-- Consuming submissions (by anybody's `enter`, or the kernel thread) preserves the invariant. -/
 theorem inv_consume {s : St} (h : Inv s) (n : Nat) : Inv (consume s n) := by
-  rcases h with ⟨h1, h2, h3, h4, h5, h6, h7, h8⟩
-  have hcq := consume_cq_le s n
+  rcases h with ⟨h1, h2, h3, h4, h5, h6, h7, h8, h9⟩
+  have hav := consume_avail_le s n
   have hlen := consume_len s n
-  refine ⟨h1, ?_, h3, ?_, ?_, h6, ?_, h8⟩
-  · show (consume s n).sq.length ≤ s.sqLen
-    omega
-  · intro a b
+  refine ⟨?_, ?_, ?_, ?_, ?_, ?_, ?_, ?_, ?_⟩
+  · rw [consume_sqLen]; exact h1
+  · rw [consume_sqLen]; omega
+  · rw [consume_p, consume_word]; exact h3
+  · rw [consume_p, consume_word, consume_w]
+    intro a b
     rcases h4 a b with c | c | c
     · left; omega
     · rcases consume_true n c with d | d
       · left; exact d
       · right; left; exact d
     · right; right; exact c
-  · intro a
+  · rw [consume_oblig]
+    intro a
+    unfold Pending at h5 ⊢
+    rw [consume_p, consume_word, consume_w]
     rcases h5 a with c | c | c
     · left; omega
     · rcases consume_true n c with d | d
       · left; exact d
       · right; left; exact d
     · right; right; exact c
-  · intro a b
-    have b' : true ∈ s.sq.drop n := b
-    refine (h7 a (List.mem_of_mem_drop b')).mono ?_
+  · rw [consume_oblig, consume_p, consume_word]; exact h6
+  · rw [consume_mode, consume_sq, consume_w]
+    intro a b
+    refine (h7 a (List.mem_of_mem_drop b)).mono ?_
     rintro pc ⟨m, e, f⟩
     exact ⟨m, e, not_mem_drop_drop f n⟩
+  · rw [consume_mode, consume_w, consume_sqLen]; exact h8
+  · rw [consume_cqLen]; exact h9
 
 theorem inv_stepFill {s : St} (h : Inv s) : Inv (stepFill s) := by
   unfold stepFill
   split
   · rename_i hlt
-    rcases h with ⟨h1, h2, h3, h4, h5, h6, h7, h8⟩
+    rcases h with ⟨h1, h2, h3, h4, h5, h6, h7, h8, h9⟩
     have hmem : ∀ {x : Bool}, x ∈ s.sq → x ∈ s.sq ++ [false] := fun hx =>
       List.mem_append.2 (Or.inl hx)
-    refine ⟨h1, ?_, h3, ?_, ?_, h6, ?_, h8⟩
+    refine ⟨h1, ?_, h3, ?_, ?_, h6, ?_, h8, h9⟩
     · show (s.sq ++ [false]).length ≤ s.sqLen
       simp; omega
     · intro a b
@@ -284,8 +393,8 @@ theorem inv_startPoll {s : St} (h : Inv s) (inf : Bool) : Inv (startPoll s inf) 
   unfold startPoll
   split
   · rename_i hp
-    rcases h with ⟨h1, h2, h3, h4, h5, h6, h7, h8⟩
-    refine ⟨h1, h2, ?_, ?_, ?_, ?_, h7, h8⟩
+    rcases h with ⟨h1, h2, h3, h4, h5, h6, h7, h8, h9⟩
+    refine ⟨h1, h2, ?_, ?_, ?_, ?_, h7, h8, h9⟩
     · simpa [hp, PPc.polling] using h3
     · simp [PPc.polling]
     · intro a
@@ -301,9 +410,9 @@ theorem inv_startPoll {s : St} (h : Inv s) (inf : Bool) : Inv (startPoll s inf) 
 
 theorem inv_startWake {s : St} (h : Inv s) (j : Nat) : Inv (startWake s j) := by
   unfold startWake
-  rcases h with ⟨h1, h2, h3, h4, h5, h6, h7, h8⟩
+  rcases h with ⟨h1, h2, h3, h4, h5, h6, h7, h8, h9⟩
   split
-  · refine ⟨h1, h2, h3, ?_, ?_, h6, ?_, ?_⟩
+  · refine ⟨h1, h2, h3, ?_, ?_, h6, ?_, ?_, h9⟩
     · intro a b
       rcases h4 a b with c | c | c
       · left; exact c
@@ -330,7 +439,7 @@ theorem inv_startWake {s : St} (h : Inv s) (j : Nat) : Inv (startWake s j) := by
   · split
     · rename_i hj
       have nr : ¬ (WPc.done.robust = true) := by simp [WPc.robust]
-      refine ⟨h1, h2, h3, ?_, ?_, h6, ?_, ?_⟩
+      refine ⟨h1, h2, h3, ?_, ?_, h6, ?_, ?_, h9⟩
       · intro a b
         rcases h4 a b with c | c | c
         · left; exact c
@@ -350,7 +459,7 @@ theorem inv_startWake {s : St} (h : Inv s) (j : Nat) : Inv (startWake s j) := by
         split at hi'
         · cases hi'
         · exact h8 a i n hi'
-    · exact ⟨h1, h2, h3, h4, h5, h6, h7, h8⟩
+    · exact ⟨h1, h2, h3, h4, h5, h6, h7, h8, h9⟩
 
 /-! ### The poller -/
 
@@ -360,20 +469,20 @@ theorem inv_stepP {s : St} (h : Inv s) : Inv (stepP s) := by
   · exact h
   · -- start
     rename_i inf hp
-    rcases h with ⟨h1, h2, h3, h4, h5, h6, h7, h8⟩
+    rcases h with ⟨h1, h2, h3, h4, h5, h6, h7, h8, h9⟩
     split
-    · refine ⟨h1, h2, ?_, ?_, ?_, ?_, h7, h8⟩
+    · refine ⟨h1, h2, ?_, ?_, ?_, ?_, h7, h8, h9⟩
       · simpa [hp, PPc.polling] using h3
       · simp [PPc.polling]
       · simp
       · simp
     · rename_i hcq
-      refine ⟨h1, h2, ?_, ?_, ?_, ?_, h7, h8⟩
+      refine ⟨h1, h2, ?_, ?_, ?_, ?_, h7, h8, h9⟩
       · simpa [hp, PPc.polling] using h3
       · simp [PPc.polling]
       · intro a
         rcases h5 a with c | c | c | c | c
-        · exact absurd c hcq
+        · left; exact c
         · right; left; exact c
         · right; right; left; exact c
         · right; right; right; left; exact ⟨c.1, by simp [PPc.preSwap]⟩
@@ -382,8 +491,8 @@ theorem inv_stepP {s : St} (h : Inv s) : Inv (stepP s) := by
         exact h6 a (by simp [hp, PPc.preSwap])
   · -- c3
     rename_i inf hp
-    rcases h with ⟨h1, h2, h3, h4, h5, h6, h7, h8⟩
-    refine ⟨h1, h2, ?_, ?_, ?_, ?_, h7, h8⟩
+    rcases h with ⟨h1, h2, h3, h4, h5, h6, h7, h8, h9⟩
+    refine ⟨h1, h2, ?_, ?_, ?_, ?_, h7, h8, h9⟩
     · simp [PPc.polling, POLLING]
     · simp [POLLING]
     · intro a
@@ -393,13 +502,15 @@ theorem inv_stepP {s : St} (h : Inv s) : Inv (stepP s) := by
     · simp [PPc.preSwap]
   · -- e3
     rename_i block n hp
-    have h' := inv_consume h n
-    have hp' : (consume s n).p = .e3 block n := hp
-    generalize consume s n = t at h' hp'
-    rcases h' with ⟨h1, h2, h3, h4, h5, h6, h7, h8⟩
+    have h' := inv_flush (inv_consume h n)
+    have hp' : (flush (consume s n)).p = .e3 block n := by rw [flush_p, consume_p]; exact hp
+    have hz : ¬ (flush (consume s n)).cq > 0 → (flush (consume s n)).avail = 0 :=
+      flush_cq_zero (by rw [consume_cqLen]; exact h.clen)
+    generalize flush (consume s n) = t at h' hp' hz
+    rcases h' with ⟨h1, h2, h3, h4, h5, h6, h7, h8, h9⟩
     simp only [Pending, hp', PPc.polling, PPc.preSwap] at h3 h4 h5 h6
     have hc4 : Inv { t with p := .c4 } := by
-      refine ⟨h1, h2, ?_, ?_, ?_, ?_, h7, h8⟩
+      refine ⟨h1, h2, ?_, ?_, ?_, ?_, h7, h8, h9⟩
       · simpa [PPc.polling] using h3
       · simpa [PPc.polling] using h4
       · intro _; right; right; right; right; simp [PPc.noBlock]
@@ -409,15 +520,16 @@ theorem inv_stepP {s : St} (h : Inv s) : Inv (stepP s) := by
     by_cases hcq : t.cq > 0
     · rw [if_pos hcq]; exact hc4
     · rw [if_neg hcq]
+      have hz' := hz hcq
       by_cases hb : block = true
       · rw [if_pos hb]
         subst hb
-        refine ⟨h1, h2, ?_, ?_, ?_, ?_, h7, h8⟩
+        refine ⟨h1, h2, ?_, ?_, ?_, ?_, h7, h8, h9⟩
         · simpa [PPc.polling] using h3
         · simpa [PPc.polling] using h4
         · intro a
           rcases h5 a with c | c | c | c | c
-          · exact absurd c hcq
+          · omega
           · right; left; exact c
           · right; right; left; exact c
           · simp at c
@@ -426,25 +538,29 @@ theorem inv_stepP {s : St} (h : Inv s) : Inv (stepP s) := by
       · rw [if_neg hb]; exact hc4
   · -- waiting
     rename_i hp
+    have h' := inv_flush h
+    have hp' : (flush s).p = .waiting := hp
+    generalize flush s = t at h' hp'
+    show Inv (if t.cq > 0 then { t with p := .c4 } else t)
     split
-    · rcases h with ⟨h1, h2, h3, h4, h5, h6, h7, h8⟩
-      refine ⟨h1, h2, ?_, ?_, ?_, ?_, h7, h8⟩
-      · simpa [hp, PPc.polling] using h3
-      · simpa [hp, PPc.polling] using h4
+    · rcases h' with ⟨h1, h2, h3, h4, h5, h6, h7, h8, h9⟩
+      refine ⟨h1, h2, ?_, ?_, ?_, ?_, h7, h8, h9⟩
+      · simpa [hp', PPc.polling] using h3
+      · simpa [hp', PPc.polling] using h4
       · intro _; right; right; right; right; simp [PPc.noBlock]
       · simp [PPc.preSwap]
-    · exact h
+    · exact h'
   · -- c4
-    rcases h with ⟨h1, h2, h3, h4, h5, h6, h7, h8⟩
-    refine ⟨h1, h2, ?_, ?_, ?_, ?_, h7, h8⟩
+    rcases h with ⟨h1, h2, h3, h4, h5, h6, h7, h8, h9⟩
+    refine ⟨h1, h2, ?_, ?_, ?_, ?_, h7, h8, h9⟩
     · simp [PPc.polling]
     · simp [PPc.polling]
     · intro _; right; right; right; right; simp [PPc.noBlock]
     · simp [PPc.preSwap]
   · -- c5
     rename_i hp
-    rcases h with ⟨h1, h2, h3, h4, h5, h6, h7, h8⟩
-    refine ⟨h1, h2, ?_, ?_, ?_, ?_, h7, h8⟩
+    rcases h with ⟨h1, h2, h3, h4, h5, h6, h7, h8, h9⟩
+    refine ⟨h1, h2, ?_, ?_, ?_, ?_, h7, h8, h9⟩
     · simpa [hp, PPc.polling] using h3
     · simp [PPc.polling]
     · simp
@@ -476,22 +592,22 @@ theorem stepW_k1_full {s : St} {j : Nat} (hj : s.w[j]? = some .k1) (hw : s.word 
 
 theorem stepW_enter_true {s : St} {j n : Nat} (hj : s.w[j]? = some (.enter true n)) :
     stepW s j = { (consume s n) with w := s.w.set j .done } := by
-  simp [stepW, hj, consume]
+  simp [stepW, hj, consume_w]
 
 theorem stepW_enter_false_add {s : St} {j n : Nat} (hj : s.w[j]? = some (.enter false n))
     (hlt : (consume s n).sq.length < s.sqLen) :
     stepW s j = { (consume s n) with sq := (consume s n).sq ++ [true], w := s.w.set j (.enter true (if s.mode = .sqpoll then 0 else (consume s n).sq.length + 1)) } := by
-  simp only [consume, List.length_drop] at hlt
-  simp [stepW, hj, consume, tryAdd, hlt, toSubmit]
+  simp only [consume_sq, List.length_drop] at hlt
+  simp [stepW, hj, consume_sq, consume_w, consume_mode, consume_sqLen, tryAdd, hlt, toSubmit]
 
 theorem stepW_enter_false_full {s : St} {j n : Nat} (hj : s.w[j]? = some (.enter false n))
     (hlt : ¬ (consume s n).sq.length < s.sqLen) :
     stepW s j = { (consume s n) with w := s.w.set j (.enter false (if s.mode = .sqpoll then 0 else (consume s n).sq.length)) } := by
-  simp only [consume, List.length_drop] at hlt
-  simp [stepW, hj, consume, tryAdd, hlt, toSubmit]
+  simp only [consume_sq, List.length_drop] at hlt
+  simp [stepW, hj, consume_sq, consume_w, consume_mode, consume_sqLen, tryAdd, hlt, toSubmit]
 
 theorem stepW_sync {s : St} {j : Nat} (hj : s.w[j]? = some .sync) :
-    stepW s j = { s with cq := s.cq + 1, w := s.w.set j .done } := by
+    stepW s j = { post s 1 with w := s.w.set j .done } := by
   simp [stepW, hj]
 
 theorem stepW_done {s : St} {j : Nat} (hj : s.w[j]? = some .done) : stepW s j = s := by
@@ -520,9 +636,9 @@ theorem robust_set {l : List WPc} {j : Nat} {q x : WPc} (hj : l[j]? = some q)
 theorem inv_stepW_k1_other {s : St} {j : Nat} (h : Inv s) (hj : s.w[j]? = some .k1)
     (hw : s.word ≠ 1) : Inv (stepW s j) := by
   rw [stepW_k1_other hj hw]
-  rcases h with ⟨h1, h2, h3, h4, h5, h6, h7, h8⟩
+  rcases h with ⟨h1, h2, h3, h4, h5, h6, h7, h8, h9⟩
   have hk : WPc.k1.robust = false := rfl
-  refine ⟨h1, h2, ?_, ?_, ?_, ?_, ?_, ?_⟩
+  refine ⟨h1, h2, ?_, ?_, ?_, ?_, ?_, ?_, h9⟩
   · show if s.p.polling = true then _ else _
     split <;> rename_i hp <;> simp only [hp, if_true] at h3
       <;> rcases h3 with e | e <;> simp_all
@@ -575,9 +691,9 @@ theorem inv_stepW_k1_single {s : St} {j : Nat} (h : Inv s) (hj : s.w[j]? = some 
   rw [stepW_k1_single hj hw hm]
   have hpol := polling_of_word_one h hw
   have hpre := preSwap_of_polling hpol
-  rcases h with ⟨h1, h2, h3, h4, h5, h6, h7, h8⟩
+  rcases h with ⟨h1, h2, h3, h4, h5, h6, h7, h8, h9⟩
   have hr : Has (fun pc => pc.robust = true) (s.w.set j .sync) := Has.set_self hj rfl
-  refine ⟨h1, h2, ?_, ?_, ?_, ?_, ?_, ?_⟩
+  refine ⟨h1, h2, ?_, ?_, ?_, ?_, ?_, ?_, h9⟩
   · simp [hpol]
   · intro _ _; right; right; exact hr
   · intro _; right; right; left; exact hr
@@ -594,9 +710,9 @@ theorem inv_stepW_k1_add {s : St} {j : Nat} (h : Inv s) (hj : s.w[j]? = some .k1
   rw [stepW_k1_add hj hw hm hlt]
   have hpol := polling_of_word_one h hw
   have hpre := preSwap_of_polling hpol
-  rcases h with ⟨h1, h2, h3, h4, h5, h6, h7, h8⟩
+  rcases h with ⟨h1, h2, h3, h4, h5, h6, h7, h8, h9⟩
   have hin : true ∈ s.sq ++ [true] := by simp
-  refine ⟨h1, ?_, ?_, ?_, ?_, ?_, ?_, ?_⟩
+  refine ⟨h1, ?_, ?_, ?_, ?_, ?_, ?_, ?_, h9⟩
   · show (s.sq ++ [true]).length ≤ s.sqLen
     simp; omega
   · simp [hpol]
@@ -619,11 +735,11 @@ theorem inv_stepW_k1_full {s : St} {j : Nat} (h : Inv s) (hj : s.w[j]? = some .k
   rw [stepW_k1_full hj hw hm hlt]
   have hpol := polling_of_word_one h hw
   have hpre := preSwap_of_polling hpol
-  rcases h with ⟨h1, h2, h3, h4, h5, h6, h7, h8⟩
+  rcases h with ⟨h1, h2, h3, h4, h5, h6, h7, h8, h9⟩
   have hr : Has (fun pc => pc.robust = true)
       (s.w.set j (.enter false (if s.mode = .sqpoll then 0 else s.sq.length))) :=
     Has.set_self hj rfl
-  refine ⟨h1, h2, ?_, ?_, ?_, ?_, ?_, ?_⟩
+  refine ⟨h1, h2, ?_, ?_, ?_, ?_, ?_, ?_, h9⟩
   · simp [hpol]
   · intro _ _; right; right; exact hr
   · intro _; right; right; left; exact hr
@@ -644,9 +760,9 @@ theorem inv_stepW_enter_true {s : St} {j n : Nat} (h : Inv s)
     (hj : s.w[j]? = some (.enter true n)) : Inv (stepW s j) := by
   rw [stepW_enter_true hj]
   have h7 := h.cover
-  rcases inv_consume h n with ⟨t1, t2, t3, t4, t5, t6, _, t8⟩
+  rcases inv_consume h n with ⟨t1, t2, t3, t4, t5, t6, _, t8, t9⟩
   have hr : (WPc.enter true n).robust = false := rfl
-  refine ⟨t1, t2, t3, ?_, ?_, t6, ?_, ?_⟩
+  refine ⟨t1, t2, t3, ?_, ?_, t6, ?_, ?_, t9⟩
   · intro a b
     rcases t4 a b with c | c | c
     · left; exact c
@@ -682,9 +798,9 @@ theorem inv_stepW_enter_false {s : St} {j n : Nat} (h : Inv s)
     rw [e]
     have hlt' : (consume s n).sq.length < (consume s n).sqLen := hlt
     generalize consume s n = t at ht hjt hlt'
-    rcases ht with ⟨t1, t2, t3, t4, t5, t6, t7, t8⟩
+    rcases ht with ⟨t1, t2, t3, t4, t5, t6, t7, t8, t9⟩
     have hin : true ∈ t.sq ++ [true] := by simp
-    refine ⟨t1, ?_, t3, ?_, ?_, t6, ?_, ?_⟩
+    refine ⟨t1, ?_, t3, ?_, ?_, t6, ?_, ?_, t9⟩
     · show (t.sq ++ [true]).length ≤ t.sqLen
       simp; omega
     · intro _ _; right; left; exact hin
@@ -701,11 +817,11 @@ theorem inv_stepW_enter_false {s : St} {j n : Nat} (h : Inv s)
     rw [e]
     have hlt' : ¬ (consume s n).sq.length < (consume s n).sqLen := hlt
     generalize consume s n = t at ht hjt hlt'
-    rcases ht with ⟨t1, t2, t3, t4, t5, t6, t7, t8⟩
+    rcases ht with ⟨t1, t2, t3, t4, t5, t6, t7, t8, t9⟩
     have hr : Has (fun pc => pc.robust = true)
         (t.w.set j (.enter false (if t.mode = .sqpoll then 0 else t.sq.length))) :=
       Has.set_self hjt rfl
-    refine ⟨t1, t2, t3, ?_, ?_, t6, ?_, ?_⟩
+    refine ⟨t1, t2, t3, ?_, ?_, t6, ?_, ?_, t9⟩
     · intro _ _; right; right; exact hr
     · intro _; right; right; left; exact hr
     · intro a b
@@ -721,10 +837,10 @@ theorem inv_stepW_enter_false {s : St} {j n : Nat} (h : Inv s)
 theorem inv_stepW_sync {s : St} {j : Nat} (h : Inv s) (hj : s.w[j]? = some .sync) :
     Inv (stepW s j) := by
   rw [stepW_sync hj]
-  rcases h with ⟨h1, h2, h3, h4, h5, h6, h7, h8⟩
-  refine ⟨h1, h2, h3, ?_, ?_, h6, ?_, ?_⟩
-  · intro _ _; left; show 0 < s.cq + 1; omega
-  · intro _; left; show 0 < s.cq + 1; omega
+  rcases h with ⟨h1, h2, h3, h4, h5, h6, h7, h8, h9⟩
+  refine ⟨h1, h2, h3, ?_, ?_, h6, ?_, ?_, h9⟩
+  · intro _ _; left; show 0 < (post s 1).avail; rw [post_avail]; omega
+  · intro _; left; show 0 < (post s 1).avail; rw [post_avail]; omega
   · intro a b
     exact (h7 a b).set_other hj (by simp)
   · intro a
@@ -755,38 +871,39 @@ theorem inv_stepW {s : St} (h : Inv s) (j : Nat) : Inv (stepW s j) := by
 /-- A waker step only changes the polling word (at `k1`, by `fetch_or(AWOKEN)`), the
 two queues, the wakers' pcs and the ghost `oblig`. -/
 theorem stepW_shape (s : St) (j : Nat) :
-    ∃ (wd cq : Nat) (sq : List Bool) (w : List WPc) (ob : Bool),
-      stepW s j = { s with word := wd, cq := cq, sq := sq, w := w, oblig := ob } ∧
+    ∃ (wd cq ov : Nat) (sq : List Bool) (w : List WPc) (ob : Bool),
+      stepW s j = { s with word := wd, cq := cq, ovf := ov, sq := sq, w := w, oblig := ob } ∧
       (wd = s.word ∨ (s.w[j]? = some .k1 ∧
         wd = if s.word / 2 % 2 = 1 then s.word else s.word + 2)) := by
   cases hj : s.w[j]? with
-  | none => rw [stepW_none hj]; exact ⟨_, _, _, _, _, rfl, Or.inl rfl⟩
+  | none => rw [stepW_none hj]; exact ⟨_, _, _, _, _, _, rfl, Or.inl rfl⟩
   | some pc =>
     cases pc with
     | k1 =>
       by_cases hw : s.word = 1
       · have e : (if s.word / 2 % 2 = 1 then s.word else s.word + 2) = 3 := by simp [hw]
         by_cases hm : s.mode = .single
-        · rw [stepW_k1_single hj hw hm]; exact ⟨_, _, _, _, _, rfl, Or.inr ⟨rfl, e.symm⟩⟩
+        · rw [stepW_k1_single hj hw hm]; exact ⟨_, _, _, _, _, _, rfl, Or.inr ⟨rfl, e.symm⟩⟩
         · by_cases hlt : s.sq.length < s.sqLen
-          · rw [stepW_k1_add hj hw hm hlt]; exact ⟨_, _, _, _, _, rfl, Or.inr ⟨rfl, e.symm⟩⟩
-          · rw [stepW_k1_full hj hw hm hlt]; exact ⟨_, _, _, _, _, rfl, Or.inr ⟨rfl, e.symm⟩⟩
-      · rw [stepW_k1_other hj hw]; exact ⟨_, _, _, _, _, rfl, Or.inr ⟨rfl, rfl⟩⟩
+          · rw [stepW_k1_add hj hw hm hlt]; exact ⟨_, _, _, _, _, _, rfl, Or.inr ⟨rfl, e.symm⟩⟩
+          · rw [stepW_k1_full hj hw hm hlt]; exact ⟨_, _, _, _, _, _, rfl, Or.inr ⟨rfl, e.symm⟩⟩
+      · rw [stepW_k1_other hj hw]; exact ⟨_, _, _, _, _, _, rfl, Or.inr ⟨rfl, rfl⟩⟩
     | enter added n =>
       cases added
       · by_cases hlt : (consume s n).sq.length < s.sqLen
-        · rw [stepW_enter_false_add hj hlt]; exact ⟨_, _, _, _, _, rfl, Or.inl rfl⟩
-        · rw [stepW_enter_false_full hj hlt]; exact ⟨_, _, _, _, _, rfl, Or.inl rfl⟩
-      · rw [stepW_enter_true hj]; exact ⟨_, _, _, _, _, rfl, Or.inl rfl⟩
-    | sync => rw [stepW_sync hj]; exact ⟨_, _, _, _, _, rfl, Or.inl rfl⟩
-    | done => rw [stepW_done hj]; exact ⟨_, _, _, _, _, rfl, Or.inl rfl⟩
+        · rw [stepW_enter_false_add hj hlt]; exact ⟨_, _, _, _, _, _, rfl, Or.inl rfl⟩
+        · rw [stepW_enter_false_full hj hlt]; exact ⟨_, _, _, _, _, _, rfl, Or.inl rfl⟩
+      · rw [stepW_enter_true hj]; exact ⟨_, _, _, _, _, _, rfl, Or.inl rfl⟩
+    | sync => rw [stepW_sync hj]; exact ⟨_, _, _, _, _, _, rfl, Or.inl rfl⟩
+    | done => rw [stepW_done hj]; exact ⟨_, _, _, _, _, _, rfl, Or.inl rfl⟩
 
 theorem stepW_frame (s : St) (j : Nat) :
     (stepW s j).p = s.p ∧ (stepW s j).returns = s.returns ∧ (stepW s j).mode = s.mode ∧
-    (stepW s j).sqLen = s.sqLen ∧ (s.word = 2 → (stepW s j).word = 2) := by
-  rcases stepW_shape s j with ⟨wd, cq, sq, w, ob, e, hw⟩
+    (stepW s j).sqLen = s.sqLen ∧ (stepW s j).cqLen = s.cqLen ∧
+    (s.word = 2 → (stepW s j).word = 2) := by
+  rcases stepW_shape s j with ⟨wd, cq, ov, sq, w, ob, e, hw⟩
   rw [e]
-  refine ⟨rfl, rfl, rfl, rfl, ?_⟩
+  refine ⟨rfl, rfl, rfl, rfl, rfl, ?_⟩
   intro h2
   show wd = 2
   rcases hw with h | ⟨_, h⟩
